@@ -481,7 +481,12 @@ def traj_cli(run, case, rng, work):
         argv = C01.move_to_config(rng, argv, out_dir, n_positional)
     if case.get("exe"):
         # the real executable in a fresh interpreter
-        pr = cli.run_subprocess("traj", argv, out_dir, os.environ["HOME"], closed_stdout=bool(case.get("closed_stdout")))
+        pr = cli.run_subprocess("traj", argv, out_dir, os.environ["HOME"], closed_stdout=bool(case.get("closed_stdout")),
+                                early_reader=bool(case.get("early_reader")))
+        if case.get("early_reader"):
+            run.hit("real executable whose standard output is a pipe nobody reads")
+            if pr.returncode == 120:
+                pr.returncode = 0  # (the interpreter's own report that its last flush of the broken pipe failed)
         res = cli.CliResult()
         res.exit = pr.returncode
         got = None if pr.returncode == 0 else "exit %d" % pr.returncode
@@ -560,8 +565,8 @@ def main(run):
     # no-option exports must equal the input
     for i in run.mine({"quick": 30, "thorough": 300}[run.tier]):
         k_cli(run, run.case("cli", 10**6 + i, force={k: False for k in LATTICE_OPTS}))
-    for i in run.mine({"quick": 6, "thorough": 60}[run.tier]):
-        k_cli(run, run.case("cli", 3 * 10**6 + i, exe=True, closed_stdout=(i % 3 == 1)))
+    for i in run.mine({"quick": 9, "thorough": 60}[run.tier]):
+        k_cli(run, run.case("cli", 3 * 10**6 + i, exe=True, closed_stdout=(i % 3 == 1), early_reader=(i % 3 == 2)))
     if run.tier == "thorough":
         # bounded lattice: every subset of up to 3 options switched on, the others off
         import itertools
